@@ -36,6 +36,8 @@ pub struct Shared {
     /// bit0 alive, bit1 doomed, bit2 mustlive
     pub c16_flags: u64,
     pub c16_target: u64,
+    /// bumped at every execution start and every top-level call (watchdog)
+    pub heartbeat: u64,
     pub ctx: [u8; CTX_CAP],
     pub sample: [u8; SAMPLE_CAP],
     pub distinct: [u64; DISTINCT_CAP],
